@@ -42,7 +42,7 @@ type methodSpec struct {
 	body    []stmtSpec
 	target  int  // wanted closeLine-startLine (0: natural)
 	lead    int  // 0 nothing, 1 blank line, 2 line comment, 3 Javadoc block before the method
-	split   bool // interface methods only: modifiers / own type-parameter list on the line above the return type
+	split   bool // keyword modifiers / own type-parameter list on the line above the return type
 }
 
 func (m *methodSpec) hasBody() bool { return m.form != "abstract" && m.form != "iface-abstract" }
@@ -388,7 +388,7 @@ func (rd *renderer) renderMethod(w *writer, ms *methodSpec, ind string) Method {
 		}
 	}
 	splitLine := 0
-	if ms.split && strings.HasPrefix(ms.form, "iface-") && strings.TrimSpace(head) != "" && !ms.oneLine {
+	if ms.split && strings.TrimSpace(head) != "" && !ms.oneLine {
 		// the declaration starts here: `default <T extends Comparable<T>>` / newline / `T pick(…) {`
 		splitLine = w.add(ind + strings.TrimSpace(head))
 		head = ""
@@ -448,6 +448,10 @@ func (rd *renderer) renderMethod(w *writer, ms *methodSpec, ind string) Method {
 	}
 	if splitLine > 0 {
 		m.StartLine, m.HeadSplit = splitLine, true
+		m.HeadFirst = strings.Fields(w.lines[splitLine-1])[0]
+		if strings.HasPrefix(m.HeadFirst, "<") {
+			m.HeadFirst = "type-parameters"
+		}
 	}
 	if !ms.hasBody() {
 		return m
